@@ -777,7 +777,7 @@ CO_ERR COSdoInitUploadBlock(CO_SDO *srv)
 CO_ERR COSdoUploadBlock(CO_SDO *srv)
 {
     CO_ERR   result = CO_ERR_SDO_SILENT;
-    CO_ERR   err;
+    CO_ERR   err = CO_ERR_NONE;
     uint32_t size;
     uint32_t num = 0;
     uint8_t  finished =  0;
@@ -827,6 +827,17 @@ CO_ERR COSdoUploadBlock(CO_SDO *srv)
 
     /* set DLC for block transfers */
     CO_SET_DLC(srv->Frm, 8u);
+
+    if (err != CO_ERR_NONE) {
+        /* entry is not readable: abort instead of sending undefined data */
+        if (srv->Abort > 0) {
+            COSdoAbort(srv, srv->Abort);
+        } else {
+            COSdoAbort(srv, CO_SDO_ERR_HW_ACCESS);
+        }
+        COSdoAbortReq(srv);
+        return (CO_ERR_SDO_ABORT);
+    }
 
     srv->Blk.State  = BLK_UPLOAD;
     srv->Blk.SegCnt = 1;
